@@ -49,6 +49,8 @@ func presetFor(property, variant string) string {
 		return "cron-tick"
 	case "C02", "C05", "C06", "C07", "C08", "C09", "C10", "C11", "C12", "C13", "C15", "C20":
 		return "full"
+	case "C19":
+		return "config"
 	}
 	return ""
 }
